@@ -29,7 +29,7 @@ from .direct_method import DirectMethod
 from .multiple_shooting import MultipleShooting
 from .single_shooting import SingleShooting
 from collections import defaultdict
-from .casadi_helpers import DM2numpy, get_meta, merge_meta, HashDict, HashDefaultDict, HashOrderedDict, HashList, for_all_primitives
+from .casadi_helpers import DM2numpy, get_meta, merge_meta, HashDict, HashDefaultDict, HashOrderedDict, HashList, for_all_primitives, is_numeric
 from contextlib import contextmanager
 from collections import OrderedDict
 from .casadi_helpers import vvcat
@@ -544,6 +544,10 @@ class Stage:
                     raise Exception("You attempted to set the value of a non-parameter. Did you mean ocp.set_initial()? Got " + str(parameter))
                 self._param_vals[parameter] = value
         for_all_primitives(parameter, value, action, "First argument to set_value must be a parameter or a simple concatenation of parameters", rhs_type=DM)
+        if self.master is not None and self.master.is_transcribed:
+            # Guesses given as expressions (of time) depend on parameter values, e.g. a parametric horizon
+            if any(not is_numeric(e) for e in self._initial.values()):
+                self._method.set_initial(self._augmented, self.master._method, self._initial)
 
 
     def set_initial(self, var, value, priority=True):
